@@ -862,7 +862,12 @@ class BackendZ3(Backend):
 
     def _unsat_core(self, s):
         cores = s.unsat_core()
-        return [impl.children()[1] for impl in s.assertions() if impl.children()[0] in cores]
+        # a solver cloned with translate() reports the assertions it inherited by their body instead of their name
+        return [
+            impl.children()[1]
+            for impl in s.assertions()
+            if impl.children()[0] in cores or impl.children()[1] in cores
+        ]
 
     @condom
     def _primitive_from_model(self, model, expr):
